@@ -40,6 +40,8 @@ type Config struct {
 	PreemptSiteK int             `json:"preempt_site_k"` // >0: a lock-acquisition site (call string of depth 2 + set of held lock sites) offers a preemption only at its first K executions per goroutine
 	FPContract bool              `json:"fp_contract"`
 	ConcreteClock bool           `json:"concrete_clock"`
+	ClockStepMS   *int64         `json:"clock_step_ms"`   // concrete clock: advance per time.Now call (default 1000; 0 = frozen)
+	ClockOffsetMS int64          `json:"clock_offset_ms"` // concrete clock: constant sub-second offset
 	NoMutexPreempt bool          `json:"no_mutex_preempt"` // context switches only at channel ops, go, Yield and blocking
 	SortMapIter bool             `json:"sort_map_iter"`
 	TimeoutMS  int               `json:"solver_timeout_ms"`
